@@ -125,6 +125,8 @@ def grid(tier, seed):
                                 any_pin=anyp, no_unlock=nou))
         for nou in (False, True):
             out.append(dict(st, cmd="pubkeys", pin="valid", any_pin=False, no_unlock=nou))
+            out.append(dict(st, cmd="pubkeys", pin="valid", any_pin=False, no_unlock=nou,
+                            wallet="zero-x"))
     # the same through the programs an operator starts (what can be written on a command line)
     for c in list(out):
         if c["echo"] and c["onb"] != "error" and c["mode"] in (BOOT, SIGNER) and \
@@ -205,7 +207,15 @@ def run_case(c):
     w.post_mode = SIGNER
     if c["mode"] in (SIGNER, UIHB):
         w.unlocked = True
-    g = Genuine(w, dict(SPEC, platform=plat.lower()))
+    spec = dict(SPEC, platform=plat.lower())
+    if c.get("wallet") == "zero-x":
+        # two of the six keys have a coordinate that begins with a zero byte
+        from vlib import attest as _at
+        wl = [list(x) for x in SPEC["wallet"]]
+        wl[1][1] = _at.zero_x_index(wl[1][0], "x")
+        wl[4][1] = _at.zero_x_index(wl[4][0], "y")
+        spec["wallet"] = wl
+    g = Genuine(w, spec)
     mw.install(w)
     da.getDongle = lambda debug: mw.get_dongle(w)()
     import ledgerblue.comm
